@@ -2,7 +2,9 @@
 //! exit entries under a forced interleaving of the scheduling points placed before every lock
 //! acquisition of the managers and the node store.
 //! case: npool { id res key }*  nsetup op*  nthreads { nops op* }*  nsteps tid*
-//! ops : L fam n ix* | R fam res n ix* | P fam ix | C fam | K fam res | G fam | Q fam res | B res
+//! ops : L fam n ix* | R fam res n ix* | P fam ix | C fam | K fam res | G fam | Q fam res | B res | E res
+//!       E res: trip the breaker of the resource (an entry that fails; needs a rule of key 11), wait for the retry
+//!       time, then build an entry that the breaker admits as its probe and a later slot rejects
 //!       fam: 0 flow, 1 hotspot, 2 breaker, 3 isolation, 4 system (L, C, G only)
 //! out : verdict(0 finished, 1 deadlock) npanics (tid)* ; nhealth (ok)* ; nprofile (lock mode heldmask)*
 //!       the profile (lock about to be taken, locks held then) is reported for single-thread cases only
@@ -29,6 +31,33 @@ enum Op {
     G(u64),
     Q(u64, u64),
     B(u64),
+    E(u64),
+}
+
+thread_local! { static REJECT: std::cell::Cell<bool> = std::cell::Cell::new(false); }
+
+/// a slot after the breaker slot that rejects the entries marked for it
+struct OracleSlot {}
+impl sentinel_core::base::BaseSlot for OracleSlot {
+    fn order(&self) -> u32 {
+        9000
+    }
+}
+impl sentinel_core::base::RuleCheckSlot for OracleSlot {
+    fn check(&self, ctx: &mut sentinel_core::base::EntryContext) -> sentinel_core::base::TokenResult {
+        if REJECT.with(|r| r.get()) {
+            sentinel_core::base::TokenResult::new_blocked(sentinel_core::base::BlockType::Other(0))
+        } else {
+            ctx.result().clone()
+        }
+    }
+}
+
+fn oracle_chain() -> Arc<sentinel_core::base::SlotChain> {
+    static CHAIN: Mutex<Option<Arc<sentinel_core::base::SlotChain>>> = Mutex::new(None);
+    let mut g = CHAIN.lock().unwrap();
+    g.get_or_insert_with(|| Arc::new(sentinel_core::verif::chain::standard_plus(vec![Arc::new(OracleSlot {})], vec![])))
+        .clone()
 }
 
 fn name(res: u64) -> String {
@@ -61,6 +90,19 @@ fn hot_rule(p: &PR) -> Arc<hotspot::Rule> {
     })
 }
 fn cb_rule(p: &PR) -> Arc<cb::Rule> {
+    if p.key == 11 {
+        // a breaker that opens at the first failed request and may probe 5 ms later
+        return Arc::new(cb::Rule {
+            id: format!("M{}", p.id),
+            resource: name(p.res),
+            strategy: cb::BreakerStrategy::ErrorCount,
+            retry_timeout_ms: 5,
+            min_request_amount: 1,
+            stat_interval_ms: 1000,
+            threshold: 1.0,
+            ..Default::default()
+        });
+    }
     let valid = p.key % 5 != 0;
     Arc::new(cb::Rule {
         id: format!("M{}", p.id),
@@ -122,6 +164,7 @@ fn parse_op(t: &mut Toks, pool: &[PR]) -> Op {
             Op::Q(f, t.u64())
         }
         "B" => Op::B(t.u64()),
+        "E" => Op::E(t.u64()),
         x => panic!("bad op {}", x),
     }
 }
@@ -237,10 +280,28 @@ fn exec(op: &Op) {
                 e.exit();
             }
         }
+        Op::E(r) => {
+            let nm = name(*r);
+            if nm.is_empty() {
+                return;
+            }
+            let chain = oracle_chain();
+            if let Ok(e) = EntryBuilder::new(nm.clone()).with_slot_chain(chain.clone()).build() {
+                e.set_err(sentinel_core::Error::msg("biz error"));
+                e.exit();
+            }
+            std::thread::sleep(std::time::Duration::from_millis(8));
+            REJECT.with(|x| x.set(true));
+            let res = EntryBuilder::new(nm).with_slot_chain(chain).build();
+            REJECT.with(|x| x.set(false));
+            if let Ok(e) = res {
+                e.exit();
+            }
+        }
     }
 }
 
-const LOCKS: [&str; 16] = [
+const LOCKS: [&str; 17] = [
     "flow.GEN_FUN_MAP", "flow.CONTROLLER_MAP", "flow.RULE_MAP",
     "hotspot.GEN_FUN_MAP", "hotspot.CONTROLLER_MAP", "hotspot.RULE_MAP",
     "circuitbreaker.GEN_FUN_MAP", "circuitbreaker.STATE_CHANGE_LISTERNERS", "circuitbreaker.BREAKER_MAP",
@@ -248,6 +309,7 @@ const LOCKS: [&str; 16] = [
     "isolation.RULE_MAP", "isolation.CURRENT_RULES",
     "system.RULE_MAP", "system.CURRENT_RULES",
     "stat.RESOURCE_NODE_MAP",
+    "circuitbreaker.breaker_state",
 ];
 
 /// a listener that looks at the rules when a breaker goes away (re-enters the manager from a callback)
